@@ -16,7 +16,7 @@ seeds=${@:-$(ls -d /verif/seeded/*/ | xargs -n1 basename)}
 for s in $seeds; do
   patch=/verif/seeded/$s/patch.diff
   case $s in
-    unfix-D1) props="C01";; unfix-D2) props="C02 C03";; unfix-D3) props="C09";; unfix-D4) props="C11";; unfix-D5) props="C19";; unfix-D6) props="C07";; unfix-D7) props="C06";;
+    unfix-D1) props="C01";; unfix-D8) props="C20";; unfix-D2) props="C02 C03";; unfix-D3) props="C09";; unfix-D4) props="C11";; unfix-D5) props="C19";; unfix-D6) props="C07";; unfix-D7) props="C06";;
     C10-r3-1) props="C10 C02";;      # the returned LayerData of the trait API: C02's subject
     *) props=${s%%-*};;
   esac
